@@ -13,8 +13,8 @@ CONSTANT MaxLater,     \* lines of the files after the first one (<= MaxLines)
          HistView      \* TRUE: the view also distinguishes what earlier files did (flags set, constructs left
                        \* open, failed) although the ideal model forgets it - that is what C18 replays
 
-\* the variables of Driver_MC are reused: opts, done, cur, st, carry, globErr; the others stay as initialised
-Idle == UNCHANGED <<st1, pass, li, results, status, pc>>
+\* the variables of Driver_MC are reused: opts, done, cur, st (pass 1), carry, globErr; the others stay as initialised
+Idle == UNCHANGED <<acc, pcar, pass, li, results, status, pc>>
 
 GInit == Init
 
@@ -27,9 +27,9 @@ GAdd(ln) == /\ Len(cur) < (IF done = <<>> THEN MaxLines ELSE MaxLater) /\ ~st.d.
 GNextFile == /\ cur # <<>> /\ Len(done) + 1 < MaxFiles
              /\ LET r == AsmFile(opts, cur, carry)
                 IN /\ ~r.fatal
-                   /\ carry' = carry \cup r.left
+                   /\ carry' = (carry \ JmpTokens) \cup r.left
                    /\ globErr' = (globErr \/ r.failed)
-                   /\ st' = Fresh(carry \cup r.left)
+                   /\ st' = Fresh((carry \ JmpTokens) \cup r.left)
              /\ done' = Append(done, cur) /\ cur' = <<>>
              /\ UNCHANGED opts /\ Idle
 
@@ -38,7 +38,11 @@ GNext == (\E ln \in Kinds : GAdd(ln)) \/ GNextFile
 Did(lines) == [flags |-> {lines[i].f : i \in {j \in 1..Len(lines) : lines[j].k = "flag"}},
                opens |-> {lines[i].t : i \in {j \in 1..Len(lines) : lines[j].k = "open"}},
                exp   |-> \E i \in 1..Len(lines) : lines[i].k = "expect",
-               err   |-> \E i \in 1..Len(lines) : lines[i].k = "err"]
+               err   |-> \E i \in 1..Len(lines) : lines[i].k = "err",
+               \* lines whose effect only shows in later passes (pass 1, the only one this cover steps through, treats
+               \* them alike): their kinds in order
+               late  |-> [i \in 1..Len(SelectSeq(lines, LAMBDA l : l.k \in {"undef", "tjmp", "pjmp"})) |->
+                            SelectSeq(lines, LAMBDA l : l.k \in {"undef", "tjmp", "pjmp"})[i].k]]
 GView == <<opts, Len(done), Len(cur), st.d, [st.c EXCEPT !.code = <<>>], carry, globErr,
            IF HistView THEN <<[i \in 1..Len(done) |-> Did(done[i])], Did(cur)>> ELSE <<>>>>
 
